@@ -6,12 +6,15 @@
   the table obligations over the generated struct description.  The scalar fragment of the full round
   trip is `roundtrip_scalar_fragment`; the round trip of whole schema trees (every keyword; no nil child) is
   `roundtrip_tree` (helper lemmas: JSV/Proofs/MshTree.lean); what is missing for the full statement is listed
-  after it.
+  after it.  For reference-free trees the tree read back accepts the same instances: `roundtrip_tree_meaning_partial`
+  (helper lemmas: JSV/Proofs/IsoValid.lean).
 -/
 import JSV.Proofs.MshRound
 import JSV.Proofs.MshScalar
 import JSV.Proofs.MshFacts
 import JSV.Proofs.MshTree
+import JSV.Proofs.IsoValid
+import JSV.Proofs.RefineCheck
 namespace JSV.C05
 open JSV Go
 
@@ -284,11 +287,92 @@ theorem treeEq_marshal {st st' : Store} (f d d' : Nat) (a b : NodeId)
     Go.marshalFuel st f a = Go.marshalFuel st' f b :=
   Go.TreeEq.marshal_eq f d d' a b hwf h
 
+/-! ## the tree read back means the same (reference-free trees) -/
+
+/-- every normal form of the round trip is invisible to the Spec (`Spec.evalStep`).  `Go.normNode` applied to EVERY schema
+    object of a store — ids, resolution tables, dynamic scope unchanged — changes no result, except for the order in which
+    evaluated property names are listed (`Inv.OutSim`: undefined together, invalid together, valid together with the same
+    evaluated properties and items as sets).  Normal form by normal form (JSV/Proofs/IsoValid.lean):
+    * `required: []` ↦ nil, `allOf: []` / `prefixItems: []` ↦ nil, every empty map ↦ nil, a nil list in DependencyStrings
+      ↦ `[]`, and the fields `evalStep` does not read (Extra, PropertyOrder, `examples`, `$vocabulary`, `$defs`,
+      `definitions`): no result changes at all (`Iso.preNorm_invisible`, `Iso.evalFuel_map`);
+    * "properties" in emission order: `evalStep` only looks properties up by name and orderedProperties keeps every
+      lookup (`Iso.lookup_propEntries`): no result changes at all;
+    * the other maps in ascending key order: this can change the ORDER of the evaluated-property list (`dependentSchemas`:
+      example at the end of the file), never its members, never the verdict (`Inv.evalFuel_sim`, the lemma behind C14);
+    * `true` / `false` coming back as `&Schema{}` / `&Schema{Not: &Schema{}}`: `Go.TreeEq` describes such a node like any
+      other — what comes back is its `normNode` with the rebuilt children — so nothing separate is to be shown.
+    So no normal form is observable by validation; there is no counterexample.
+    `Refine.StoreWF st`: "properties" maps have distinct keys (Go maps); `Json.WF inst`: the instance has no duplicate key. -/
+theorem normal_forms_invisible (env : Spec.Env) (st : Store) (hst : Refine.StoreWF st) (fuel : Nat) (scope : List NodeId)
+    (s : NodeId) (inst : Json) (hinst : Json.WF inst = true) :
+    Inv.OutSim (Spec.evalFuel { env with st := st } fuel scope s inst)
+      (Spec.evalFuel { env with st := st.map Go.normNode } fuel scope s inst) :=
+  Iso.normNode_invisible env st hst fuel scope s inst hinst
+
+/-- `treeEq_meaning_partial`.  Two trees equal up to the normal forms (`Go.TreeEq`), the left one REFERENCE-FREE
+    (`Go.treeAll Iso.noRefs st d a`: every schema object of the tree exists and has no `$ref` and no `$dynamicRef`;
+    decidable), mean the same: with ANY resolution tables on either side (never consulted — hence nothing is asked about
+    `$id` / `$anchor` / `$dynamicAnchor`), the same draft and regexp matcher, every instance gets Spec results that agree
+    up to the order of the evaluated-property list, in particular the same verdict, with every amount of fuel.
+    Proof: the normal forms are invisible (`normal_forms_invisible`), and validity is invariant under the renaming of node
+    ids that `Go.TreeEq` describes (`Iso.evalFuel_sim`).
+    PARTIAL: trees containing `$ref` / `$dynamicRef` are not covered — their meaning depends on what `Resolve` computes
+    for each of the two trees; the statement then needs `Resolve` on both sides and "the two resolutions are related"
+    (`Iso.TablesSim`), not proved. -/
+theorem treeEq_meaning_partial {st st' : Store} {d : Nat} {a b : NodeId} (hte : Go.TreeEq st st' d a b)
+    (hfree : Go.treeAll Iso.noRefs st d a = true) (hst : Refine.StoreWF st) (env env' : Spec.Env)
+    (hd : env.draft = env'.draft) (hre : env.reMatch = env'.reMatch) (fuel : Nat) (inst : Json)
+    (hinst : Json.WF inst = true) :
+    Inv.OutSim (Spec.evalFuel { env with st := st } fuel [] a inst)
+        (Spec.evalFuel { env' with st := st' } fuel [] b inst) ∧
+      Spec.valid { env with st := st } fuel a inst = Spec.valid { env' with st := st' } fuel b inst := by
+  have h := Iso.treeEq_meaning hte hfree hst env env' hd hre fuel inst hinst
+  exact ⟨h, Iso.valid_of_outSim h⟩
+
+
+/-- `roundtrip_tree_meaning_partial`.  The tree `UnmarshalJSON` reads back from what `MarshalJSON` wrote accepts exactly
+    the instances the original accepts — for a well-formed (`TreeWF`), REFERENCE-FREE tree (no `$ref`, no `$dynamicRef`
+    below `id`; see `treeEq_meaning_partial`, also for what PARTIAL excludes: trees with references need `Resolve` on both
+    sides). -/
+theorem roundtrip_tree_meaning_partial (st : Store) (id : NodeId) (j : Json) (st₂ : Store)
+    (hwf : TreeWF st id) (hj : Go.marshal st id = .ok j)
+    (hfree : Go.treeAll Iso.noRefs st st.size id = true) (hst : Refine.StoreWF st)
+    (env env' : Spec.Env) (hd : env.draft = env'.draft) (hre : env.reMatch = env'.reMatch) :
+    ∃ id' st₂', Go.unmarshal j st₂ = .ok (id', st₂') ∧ ∀ fuel inst, Json.WF inst = true →
+      Inv.OutSim (Spec.evalFuel { env with st := st } fuel [] id inst)
+        (Spec.evalFuel { env' with st := st₂' } fuel [] id' inst) ∧
+      Spec.valid { env with st := st } fuel id inst = Spec.valid { env' with st := st₂' } fuel id' inst := by
+  obtain ⟨id', st₂', hu, hte, -⟩ := roundtrip_tree st id j st₂ hwf hj
+  exact ⟨id', st₂', hu, fun fuel inst hinst =>
+    treeEq_meaning_partial hte (Go.treeAll_mono (Go.treeAll_mono hfree)) hst env env' hd hre fuel inst hinst⟩
+
+
+/-- … and for the evaluator itself (`Go.validateFuel`, through `C01.validate_refines_spec`): on two resolved environments
+    over the two stores — well formed as `Resolve` leaves them, same draft and regexp matcher, otherwise unrelated —
+    wherever the Spec decides, validating against the original and against the tree read back both fail or both succeed.
+    PARTIAL: reference-free trees only. -/
+theorem treeEq_validate_same_partial {d : Nat} {a b : NodeId} (env₁ env₂ : Go.VEnv)
+    (hte : Go.TreeEq env₁.st env₂.st d a b) (hfree : Go.treeAll Iso.noRefs env₁.st d a = true)
+    (hwf₁ : Refine.EnvWF env₁) (hwf₂ : Refine.EnvWF env₂) (hst₁ : Refine.StoreWF env₁.st)
+    (hst₂ : Refine.StoreWF env₂.st) (hd : env₁.draft = env₂.draft) (hre : env₁.reMatch = env₂.reMatch)
+    (fuel : Nat) (inst : Json) (hinst : Json.WF inst = true)
+    (hdec : (Spec.evalFuel (Refine.specEnvOf env₁) fuel [] a inst).isSome = true) :
+    (Go.validateFuel env₁ fuel [] (GoVal.ofJson inst) a = .err ∧
+        Go.validateFuel env₂ fuel [] (GoVal.ofJson inst) b = .err) ∨
+      ∃ a₁ a₂, Go.validateFuel env₁ fuel [] (GoVal.ofJson inst) a = .ok a₁ ∧
+        Go.validateFuel env₂ fuel [] (GoVal.ofJson inst) b = .ok a₂ := by
+  have h : Inv.OutSim (Spec.evalFuel (Refine.specEnvOf env₁) fuel [] a inst)
+      (Spec.evalFuel (Refine.specEnvOf env₂) fuel [] b inst) :=
+    Iso.treeEq_meaning hte hfree hst₁ (Refine.specEnvOf env₁) (Refine.specEnvOf env₂) hd hre fuel inst hinst
+  exact Iso.same_verdict_of_outSim h (Refine.validate_refines_spec_root env₁ hwf₁ hst₁ fuel a inst hinst)
+    (Refine.validate_refines_spec_root env₂ hwf₂ hst₂ fuel b inst hinst) hdec
+
 /-! ### What is missing for the full round trip
-  * `roundtrip_tree_meaning` (the two trees accept the same instances) is not proved: `Go.validateFuel` runs on a
-    resolved environment (`VEnv`: infos / anchors / bases per NodeId), so the statement needs `Resolve` of both
-    stores and an invariance of validation under a renaming of NodeIds (the `Inv.validateFuel_map` lemmas keep the
-    NodeIds fixed); `treeEq_marshal` is the corresponding statement for MarshalJSON;
+  * `roundtrip_tree_meaning` (the two trees accept the same instances) is proved for reference-free trees only
+    (`roundtrip_tree_meaning_partial`, through the invariance of validity under a renaming of NodeIds,
+    `Iso.evalFuel_sim`); for trees with `$ref` / `$dynamicRef` the statement needs `Resolve` of both stores and
+    "the two resolutions are related along `Go.TreeEq`"; `treeEq_marshal` is the corresponding statement for MarshalJSON;
   * nil children (`null` elements of schema lists / maps come back as nil pointers, a nil `*Schema` field that is
     set explicitly cannot be told from an absent one);
   * `any`-typed values (enum, const, examples, Extra) are covered in the form encoding/json writes (`Go.jsonSorted`);
@@ -528,5 +612,55 @@ example (st₂ : Store) (j : Json) (hj : Go.marshal exTree2 0 = .ok j) :
     ∃ id' st₂', Go.unmarshal j st₂ = .ok (id', st₂') ∧ Go.TreeEq exTree2 st₂' (exTree2.size + 2) 0 id' ∧
       Go.marshal st₂' id' = .ok j :=
   roundtrip_tree exTree2 0 j st₂ exTree2_wf hj
+
+/-! ### `roundtrip_tree_meaning_partial` is not vacuous -/
+
+def exSpecEnv (st : Store) : Spec.Env :=
+  { st := st, draft := .d2020, refTarget := fun _ => none, dynInitial := fun _ => none, dynName := fun _ => "",
+    resource := fun _ => none, dynDecl := fun _ _ => none, reMatch := fun _ _ => false }
+
+/-- `exTree` is reference-free and its "properties" maps have distinct keys -/
+example : Go.treeAll Iso.noRefs exTree exTree.size 0 = true := by decide
+example : Refine.StoreWF exTree := Refine.StoreWF_of_check _ (by decide)
+
+/-- `roundtrip_tree_meaning_partial` applied to `exTree`, whatever the resolution tables -/
+example (st₂ : Store) (env : Spec.Env) :
+    ∃ id' st₂', Go.unmarshal exTreeJson st₂ = .ok (id', st₂') ∧ ∀ fuel inst, Json.WF inst = true →
+      Inv.OutSim (Spec.evalFuel { env with st := exTree } fuel [] 0 inst)
+        (Spec.evalFuel { env with st := st₂' } fuel [] id' inst) ∧
+      Spec.valid { env with st := exTree } fuel 0 inst = Spec.valid { env with st := st₂' } fuel id' inst :=
+  roundtrip_tree_meaning_partial exTree 0 exTreeJson st₂ exTree_wf (by rfl) (by decide)
+    (Refine.StoreWF_of_check _ (by decide)) env env rfl rfl
+
+/-- … and these verdicts are defined and not all the same -/
+example : Spec.valid (exSpecEnv exTree) 4 0 (.obj [("a", .num 1), ("b", .str "xy")]) = some true := by decide
+example : Spec.valid (exSpecEnv exTree) 4 0 (.obj [("a", .num 1), ("b", .str "xy"), ("c", .null)]) = some false := by decide
+
+/-! why the results are compared up to the ORDER of the evaluated-property list (`Inv.OutSim`) and not by equality: the
+    Spec lists evaluated property names in the order the keywords produce them, and `dependentSchemas` — a Go map, written
+    in ascending key order — comes back sorted.  Below b ↦ {properties: {x}}, a ↦ {properties: {y}}: the original lists
+    x, y; the tree read back lists y, x.  The same set, the same verdict. -/
+
+def exDep : Store := #[
+  { dependentSchemas := some [("b", 1), ("a", 2)] },
+  { properties := some [("x", 3)] },
+  { properties := some [("y", 3)] },
+  {}]
+def exDepBack : Store := #[
+  {}, { properties := some [("y", 0)] }, {}, { properties := some [("x", 2)] },
+  { dependentSchemas := some [("a", 1), ("b", 3)] }]
+def exDepInst : Json := .obj [("a", .null), ("b", .null), ("x", .null), ("y", .null)]
+
+/-- what `exDep` is written as, what is read back, and the two evaluated-property lists -/
+example :
+    Go.marshal exDep 0 = .ok (.obj [("dependentSchemas", .obj [
+      ("a", .obj [("properties", .obj [("y", .bool true)])]),
+      ("b", .obj [("properties", .obj [("x", .bool true)])])])]) ∧
+    Go.unmarshal (.obj [("dependentSchemas", .obj [
+      ("a", .obj [("properties", .obj [("y", .bool true)])]),
+      ("b", .obj [("properties", .obj [("x", .bool true)])])])]) #[] = .ok (4, exDepBack) ∧
+    (Spec.evalFuel (exSpecEnv exDep) 3 [] 0 exDepInst).map (·.map (·.props)) = some (some ["x", "y"]) ∧
+    (Spec.evalFuel (exSpecEnv exDepBack) 3 [] 4 exDepInst).map (·.map (·.props)) = some (some ["y", "x"]) :=
+  ⟨by rfl, by rfl, by decide, by decide⟩
 
 end JSV.C05
